@@ -293,8 +293,16 @@ func (pool *BlockPool) SetPeerRange(peerID p2p.ID, base int64, height int64) {
 
 	peer := pool.peers[peerID]
 	if peer != nil {
+		lowered := height < peer.height
 		peer.base = base
 		peer.height = height
+		if lowered {
+			// The peer may have been the one that set maxPeerHeight. Recompute it,
+			// otherwise it stays at a height nobody claims to have any more (not
+			// even after the peer is removed, see removePeer) and IsCaughtUp can
+			// never become true.
+			pool.updateMaxPeerHeight()
+		}
 	} else {
 		peer = newBPPeer(pool, peerID, base, height)
 		peer.setLogger(pool.Logger.With("peer", peerID))
